@@ -121,10 +121,35 @@ theorem file_trace (crc : Bytes → Nat) (kbs : List (Key × List Blk)) (h : DOM
       have := (h.wfw.blks kb hkb).1
       cases hbs : kb.2 with
       | nil => exact absurd hbs this
-      | cons b bs => simp [sblocks], scontent_ne 5 kbs hne⟩
-  have hix : (openReader none (layout 5 kbs)).ix = mkIndex (layout 5 kbs) := by
-    simp [openReader, applyTombstones, tWalk]
-  rw [lookups_trace (scontent 5 kbs) (layout 5 kbs) hctx qs hq _ _ _ _ rfl hix ⟨rfl, rfl, rfl, rfl, rfl⟩]
-  rfl
+      | cons b bs => simp [sblocks], scontent_ne 5 kbs hne, ?_⟩
+  · have hix : (openReader none (layout 5 kbs)).ix = mkIndex (layout 5 kbs) := by
+      simp [openReader, applyTombstones, tWalk]
+    rw [lookups_trace (scontent 5 kbs) (layout 5 kbs) hctx qs hq _ _ _ _ rfl hix ⟨rfl, rfl, rfl, rfl, rfl⟩]
+    rfl
+  · -- the time side conditions of the domain
+    refine ⟨?_, ?_, ?_, ?_⟩
+    · intro sk hsk
+      obtain ⟨kb, hkb, p, _, hb⟩ := scontent_mem _ _ sk hsk
+      rw [hb]
+      have := (h.wfw.blks kb hkb).1
+      cases hbs : kb.2 with
+      | nil => exact absurd hbs this
+      | cons b bs => simp [sblocks]
+    · intro sk hsk
+      obtain ⟨kb, hkb, p, _, hb⟩ := scontent_mem _ _ sk hsk
+      rw [hb]; exact sblocks_sorted p kb.2 (h.wfw.sorted kb hkb)
+    · intro sk hsk
+      obtain ⟨kb, hkb, p, _, hb⟩ := scontent_mem _ _ sk hsk
+      rw [hb]
+      apply List.Pairwise.imp _ (sblocks_maxmono p kb.2 (h.mono kb hkb))
+      intro a b hab; simpa using hab
+    · intro sk hsk sb hsb
+      obtain ⟨kb, hkb, p, _, hb⟩ := scontent_mem _ _ sk hsk
+      rw [hb] at hsb
+      obtain ⟨b, hbm, h1, h2⟩ := sblocks_mem _ _ sb hsb
+      have := (h.wff.kb kb hkb).blks b hbm
+      unfold WFBlk inInt64 at this
+      rw [h1, h2]
+      exact ⟨this.1.1, this.1.2, this.2.1.1, this.2.1.2⟩
 
 end Influx.Tsm
